@@ -13,7 +13,62 @@ fn handle_count(ctx: &Context) -> usize {
     }
 }
 
+const DEEP_CALLS: [&str; 30] = [
+    "map_contains_value ${hk} nosuch", "map_contains_value ${hk} v", "map_contains_value ${map} nosuch", "map_contains_key ${hk} ${arr}", "map_contains_key ${hk} zz",
+    "map_is_empty ${hk}", "set_from_array ${nested}", "array_concat ${nested} ${arr}", "array_join ${nested} ,", "array_join ${arr} \"\\t\"", "array_contains ${nested} ${arr}",
+    "array_contains ${nested} zz", "array_is_empty ${nested}", "set_is_empty ${hset}", "concat ${arr} x", "join_path ${arr} b",
+    "glob_cp @D@/*.txt @D@/out", "glob_cp @D@/*.nomatch @D@/out", "cp_glob @D@/a.txt @D@/out", "glob_cp @D@/missing.txt @D@/out",
+    "glob_chmod 777 @D@/*.txt", "chmod_glob 777 @D@/*.nomatch", "sha256sum @D@/a.txt", "sha512sum @D@/a.txt", "sha256sum @D@/missing.txt",
+    "is_windows", "uname", "unset scope::unset_x::v", "unset nested", "is_empty ${arr}",
+];
+
+fn canon(v: &StateValue) -> Value {
+    match v {
+        StateValue::Boolean(b) => json!({"b": b}),
+        StateValue::Number(n) => json!({"n": n}),
+        StateValue::UnsignedNumber(n) => json!({"u": n}),
+        StateValue::Number32Bit(n) => json!({"n32": n}),
+        StateValue::UnsignedNumber32Bit(n) => json!({"u32": n}),
+        StateValue::Number64Bit(n) => json!({"n64": n}),
+        StateValue::UnsignedNumber64Bit(n) => json!({"u64": n}),
+        StateValue::String(s) => json!({"s": s}),
+        StateValue::ByteArray(b) => json!({"bytes": b}),
+        StateValue::List(l) => json!({"list": l.iter().map(canon).collect::<Vec<Value>>()}),
+        StateValue::Set(st) => {
+            let mut v: Vec<String> = st.iter().cloned().collect();
+            v.sort();
+            json!({"set": v})
+        }
+        StateValue::SubState(m) => {
+            let bm: BTreeMap<String, Value> = m.iter().map(|(k, x)| (k.clone(), canon(x))).collect();
+            json!({"sub": bm})
+        }
+        StateValue::Any(_) => json!("any"),
+    }
+}
+
+fn handle_table(ctx: &Context) -> BTreeMap<String, Value> {
+    match ctx.state.get("handles") {
+        Some(StateValue::SubState(m)) => m.iter().map(|(k, v)| (k.clone(), canon(v))).collect(),
+        _ => BTreeMap::new(),
+    }
+}
+
+/// the deep scenario restricted to the script-implemented collection commands (used for C12)
+pub fn gen_deep_collections(r: &mut Rng) -> Value {
+    let n = 1 + r.below(4);
+    let seq: Vec<String> = (0..n).map(|_| DEEP_CALLS[r.below(14)].to_string()).collect();
+    json!({"deep": true, "calls": seq, "with_out": r.chance(3, 4)})
+}
+
 pub fn gen(r: &mut Rng) -> Value {
+    if r.chance(1, 2) {
+        // deep scenario: every script-implemented command, collections that hold handles of other collections
+        // (as array items, set members, map KEYS), files under a scratch directory; the whole handle table is compared
+        let n = 1 + r.below(4);
+        let seq: Vec<String> = (0..n).map(|_| r.pick(&DEEP_CALLS).to_string()).collect();
+        return json!({"deep": true, "calls": seq, "with_out": r.chance(3, 4)});
+    }
     // script-implemented commands, with arguments that make them succeed or fail
     let calls = [
         "array_contains ${arr} b", "array_contains ${arr} zz", "array_contains nohandle b", "array_join ${arr} ,", "array_join nohandle ,",
@@ -48,7 +103,73 @@ pub fn run(input: &Value) -> Option<Value> {
     })
 }
 
+fn run_deep(input: &Value) -> Option<Value> {
+    let dir = std::env::temp_dir().join(format!("verif_c19_{}", std::process::id()));
+    let _ = std::fs::remove_dir_all(&dir);
+    std::fs::create_dir_all(dir.join("out")).ok()?;
+    std::fs::write(dir.join("a.txt"), "aaa").ok()?;
+    std::fs::write(dir.join("b.txt"), "bbb").ok()?;
+    let d = dir.to_string_lossy().to_string();
+    let mut context = Context::new();
+    duckscriptsdk::load(&mut context.commands).ok()?;
+    let setup = "arr = array a b c\nmap = map\nmap_put ${map} k1 v1\nhset = set_new x\nset_put ${hset} ${arr}\nnested = array n1 ${arr} ${hset}\nhk = map\nmap_put ${hk} ${arr} v\nmap_put ${hk} ${nested} w\nscope::unset_x::v = set keep\nva = set 1";
+    context = runner::run_script(setup, context, None).ok()?;
+    let with_out = input["with_out"].as_bool()?;
+    let mut res = None;
+    for (i, c) in input["calls"].as_array()?.iter().enumerate() {
+        let call = c.as_str()?.replace("@D@", &d);
+        let returns_handle = call.starts_with("array_concat ") || call.starts_with("set_from_array ");
+        if returns_handle && !with_out {
+            continue;
+        }
+        let before: BTreeMap<String, String> = context.variables.iter().map(|(k, v)| (k.clone(), v.clone())).collect();
+        let t_before = handle_table(&context);
+        let script = if with_out { format!("out = {}", call) } else { call.clone() };
+        context = match runner::run_script(&script, context, None) {
+            Ok(c) => c,
+            Err(e) => { res = Some(json!({"step": i, "script": script, "error": e.to_string()})); break; }
+        };
+        let mut after: BTreeMap<String, String> = context.variables.iter().map(|(k, v)| (k.clone(), v.clone())).collect();
+        let out = after.remove("out");
+        let mut expect = before.clone();
+        expect.remove("out");
+        if call == "unset scope::unset_x::v" { expect.remove("scope::unset_x::v"); }
+        if call == "unset nested" { expect.remove("nested"); }
+        if after != expect {
+            res = Some(json!({"step": i, "script": script, "what": "caller variables changed (beyond the output variable and documented effects)", "before": expect, "after": after}));
+            break;
+        }
+        // the handle table: every collection that was live is still there with the same contents, and nothing new
+        // stays behind except a collection the command documents returning (named by the output variable)
+        let mut t_after = handle_table(&context);
+        let mut created = None;
+        if returns_handle {
+            if let Some(o) = &out {
+                if t_after.contains_key(o) && !t_before.contains_key(o) {
+                    created = Some(o.clone());
+                    t_after.remove(o);
+                }
+            }
+        }
+        if t_after != t_before {
+            let gone: Vec<&String> = t_before.keys().filter(|k| !t_after.contains_key(*k)).collect();
+            let extra: Vec<&String> = t_after.keys().filter(|k| !t_before.contains_key(*k)).collect();
+            res = Some(json!({"step": i, "script": script, "what": "the handle table changed: a live collection was released / altered, or a temporary collection was left behind", "released": gone, "left_behind": extra}));
+            break;
+        }
+        if let Some(o) = created {
+            context = runner::run_script(&format!("release {}", o), context, None).ok()?;
+        }
+        context.variables.remove("out");
+    }
+    let _ = std::fs::remove_dir_all(&dir);
+    res
+}
+
 fn run_inner(input: &Value) -> Option<Value> {
+    if input["deep"].as_bool().unwrap_or(false) {
+        return run_deep(input);
+    }
     let mut context = Context::new();
     duckscriptsdk::load(&mut context.commands).ok()?;
     let setup = "arr = array a b c\nmap = map\nmap_put ${map} k1 v1\nset = set_new x y\nva = set 1\nvb = set 2\nscope::caller::x = set keep";
